@@ -483,6 +483,11 @@ func (g *scriptGen) exitWouldFire(code uint16) bool {
 // steps draws n steps: note presses/releases mixed with action taps/holds by weight.
 func (g *scriptGen) steps(n int, wNote, wAct, wRel int, avoidExit bool) {
 	for i := 0; i < n; i++ {
+		if len(g.order) > 0 && g.r.Chance(0.04) {
+			// kernel auto-repeat of a held key
+			c := g.order[g.r.Intn(len(g.order))]
+			g.out = append(g.out, model.Event{Kind: "key", Handler: g.handler[c], Code: c, Value: 2})
+		}
 		switch g.r.Pick(wNote, wAct, wRel) {
 		case 0:
 			if len(g.noteK) == 0 {
